@@ -149,7 +149,8 @@ func fenceMatch(
 					}
 					// Maybe the old object and new object create a line that crosses the fence.
 					// Must detect for that possibility.
-					if !nocross && details.old != nil {
+					// (a previous value without a position, such as a string, has no path)
+					if !nocross && details.old != nil && objIsSpatial(details.old.Geo()) {
 						ls := geojson.NewLineString(geometry.NewLine(
 							[]geometry.Point{
 								details.old.Geo().Center(),
